@@ -1011,6 +1011,16 @@ def run_drivers(rep, prog):
                        what='absorbing term only at the all-%s corner with the reference expression' % ('zero' if first else 'one'))
 
 
+def rule_c_intdiv(rep, cprog):
+    """R-CTYPE: a quotient of two integer-typed operands is truncated by C (1/2 == 0); the formulas of the scheme mean real quotients"""
+    from sa.cfront import c_integer_division
+    for name, cf in sorted(cprog.funcs.items()):
+        bad = c_integer_division(cf)
+        rep.ob('R-CTYPE', 'C %s integer quotient' % name, not bad, 'no quotient of two integer operands' if not bad else
+               '; '.join('line %d: `%s` is an integer division (truncated before it is used in floating point)' % b for b in bad), cf.rel, cf.line,
+               what='quotients inside the coefficient formulas are real quotients')
+
+
 def run(rep, prog, tier):
     cprog = CProgram()
     ref = run_shared(rep, prog, cprog)
@@ -1043,6 +1053,7 @@ def run(rep, prog, tier):
         rep.ob('R-CTYPE', 'C %s' % name, not bad, 'no integer abs() of a floating-point value' if not bad else
                '; '.join('line %d: %s converts its floating-point argument to int (use fabs)' % b for b in bad), cf.rel, cf.line,
                what='absolute values of floating-point quantities are taken in floating point')
+    rule_c_intdiv(rep, cprog)
     rep.floor('R-TPL(kernel)', 330)
     rep.floor('R-TPL(precalc)', 35)
     rep.floor('R-TPL(pyx)', 100)
